@@ -120,7 +120,7 @@ def dense_model(vals, pattern, nrows, ncols, kind='f'):
     for v, (i, j) in zip(vals.a, pattern): d[i, j] = d[i, j] + v
     return SArray(d, kind)
 
-OPS = ['dense', 'matvec', 'matmat', 'T', 'neg', 'scale', 'div', 'add', 'sub', 'diagonal', 'rowsupp', 'submatrix', 'csr', 'coo', 'pickle', 'rmul']
+OPS = ['submatrix_seq', 'dense', 'matvec', 'matmat', 'T', 'neg', 'scale', 'div', 'add', 'sub', 'diagonal', 'rowsupp', 'submatrix', 'csr', 'coo', 'pickle', 'rmul']
 
 def from_csr(data, colidx, rowptr, nrows, ncols, kind):
     '''specification of what exported CSR data denote (requires concrete index arrays)'''
@@ -135,6 +135,13 @@ def from_csr(data, colidx, rowptr, nrows, ncols, kind):
 def operator_index(x):
     import operator
     return operator.index(x)
+
+def _mask_sequence(mask, nrows, ncols):
+    rows = numpy.array(mask[0], dtype=bool); cols = numpy.array(mask[1], dtype=bool)
+    if nrows == ncols: first = [(rows, rows)]      # square: start with equal row and column masks (as Matrix.solve does)
+    else: first = []
+    seq = first + [(rows, cols), (rows, ~cols), (rows, numpy.roll(cols, 1)), (~rows, numpy.roll(cols, 1)), (rows, cols), (numpy.roll(rows, 1), cols)]
+    return [(r, c) for r, c in seq if not (r.all() and c.all())]
 
 def ops_case(item):
     '''one (shape, pattern, second pattern, kind) case; all ops; returns verdict summary'''
@@ -177,6 +184,12 @@ def ops_case(item):
                     rows = numpy.array(mask[0], dtype=bool); cols = numpy.array(mask[1], dtype=bool)
                     S = A.submatrix(rows, cols)
                     return S.export('dense'), D[numpy.ix_(rows, cols)] if True else None, inputs
+                if op == 'submatrix_seq':
+                    # a history on ONE matrix object: the same rows with other columns, the same columns with other rows, then the first selection again
+                    outs, refs = [], []
+                    for rows, cols in _mask_sequence(mask, nrows, ncols):
+                        outs.append(numpy.ravel(A.submatrix(rows, cols).export('dense'))); refs.append(numpy.ravel(D[numpy.ix_(rows, cols)]))
+                    return numpy.concatenate(outs) if outs else SArray.wrap(numpy.zeros(0)), numpy.concatenate(refs) if refs else SArray.wrap(numpy.zeros(0)), inputs
                 if op == 'csr':
                     data, ci, rp = A.export('csr')
                     d, ok = from_csr(data, ci, rp, nrows, ncols, kind)
@@ -244,6 +257,8 @@ def replay_ops(item, fail):
                          div=lambda: ((A / s).export('dense'), D / s), add=lambda: ((A + B).export('dense'), D + D2), sub=lambda: ((A - B).export('dense'), D - D2),
                          diagonal=lambda: (A.diagonal(), numpy.diag(D)), rowsupp=lambda: (A.rowsupp(), (D != 0).any(axis=1)),
                          submatrix=lambda: (A.submatrix(rows, cols).export('dense'), D[numpy.ix_(rows, cols)]),
+                         submatrix_seq=lambda: (numpy.concatenate([numpy.ravel(A.submatrix(r, c).export('dense')) for r, c in _mask_sequence(mask, nrows, ncols)] or [numpy.zeros(0)]),
+                                                numpy.concatenate([numpy.ravel(D[numpy.ix_(r, c)]) for r, c in _mask_sequence(mask, nrows, ncols)] or [numpy.zeros(0)])),
                          pickle=lambda: (pickle.loads(pickle.dumps(A)).export('dense'), D))
             def csr():
                 data, ci, rp = A.export('csr'); d = numpy.zeros((nrows, ncols), dt)
